@@ -58,6 +58,13 @@ PosOf(s, p) == {x \in DOMAIN s.pos : s.pos[x].pool = p}
 Bal(s, acct) == IF acct \in DOMAIN s.tok THEN s.tok[acct].amount ELSE 0
 Delta(pre, post, acct) == Bal(post, acct) -- Bal(pre, acct)        \* signed
 
+(* transfer-fee schedule of mint m in force at `epoch' (bps 0 when the mint has none) *)
+TfCfg(s, m, epoch) ==
+  LET t == s.mint[m].tf IN
+  IF ~t.has THEN [bps |-> 0, max |-> 0]
+  ELSE IF t.newer.epoch \preceq epoch THEN [bps |-> t.newer.bps, max |-> t.newer.max]
+  ELSE [bps |-> t.older.bps, max |-> t.older.max]
+
 -----------------------------------------------------------------------------
 (* C05: liquidity sums *)
 InRange(pool, x) == x.lo <= pool.tick /\ pool.tick < x.up
@@ -234,9 +241,12 @@ C06TwoHop(pre, e, post) ==
   /\ C06Leg(pre, e, post, e.slots.whirlpool_two.id, e.args.aToB2)
 
 C06CollectProtocol(pre, e, post) ==
-  LET p == APool(e) IN
-  /\ Delta(pre, post, e.slots.token_destination_a.id) \doteq pre.pool[p].protoA
-  /\ Delta(pre, post, e.slots.token_destination_b.id) \doteq pre.pool[p].protoB
+  LET p == APool(e)
+      cA == TfCfg(pre, pre.pool[p].mintA, e.epoch)      \* (no fee: bps 0; with a transfer fee the destination receives the owed amount less the fee)
+      cB == TfCfg(pre, pre.pool[p].mintB, e.epoch)
+  IN
+  /\ Delta(pre, post, e.slots.token_destination_a.id) \doteq TfExcluded(cA, pre.pool[p].protoA)
+  /\ Delta(pre, post, e.slots.token_destination_b.id) \doteq TfExcluded(cB, pre.pool[p].protoB)
   /\ (0 -- Delta(pre, post, e.slots.token_vault_a.id)) \doteq pre.pool[p].protoA
   /\ (0 -- Delta(pre, post, e.slots.token_vault_b.id)) \doteq pre.pool[p].protoB
   /\ post.pool[p].protoA \doteq 0 /\ post.pool[p].protoB \doteq 0
@@ -398,7 +408,8 @@ C11Collect(pre, e, post) ==
       owed == pre.pos[k].rw[i].owed
       vb == Bal(pre, e.slots.reward_vault.id)
       paid == BMin(owed, vb)
-  IN /\ Sub("pays_min", Delta(pre, post, e.slots.reward_owner_account.id) \doteq paid)
+      c == TfCfg(pre, pre.pool[pre.pos[k].pool].rewards[i].mint, e.epoch)      \* a reward mint may charge a transfer fee
+  IN /\ Sub("pays_min", Delta(pre, post, e.slots.reward_owner_account.id) \doteq TfExcluded(c, paid))
      /\ Sub("vault_pays", (0 -- Delta(pre, post, e.slots.reward_vault.id)) \doteq paid)
      /\ Sub("remainder_owed", post.pos[k].rw[i].owed \doteq (owed -- paid))
      /\ Sub("vault_of_index", e.slots.reward_vault.id = pre.pool[pre.pos[k].pool].rewards[i].vault)
@@ -474,11 +485,6 @@ C11Ledger(rled, post) ==
 (* C16: transfer-fee tokens at instruction level.  The real Token-2022 processor executes the
    transfers and withholds the fee, so balance deltas are ground truth: the user's account loses
    `paid', the vault's amount grows by paid - fee; the vault loses `sent', the user gains sent - fee. *)
-TfCfg(s, m, epoch) ==
-  LET t == s.mint[m].tf IN
-  IF ~t.has THEN [bps |-> 0, max |-> 0]
-  ELSE IF t.newer.epoch \preceq epoch THEN [bps |-> t.newer.bps, max |-> t.newer.max]
-  ELSE [bps |-> t.older.bps, max |-> t.older.max]
 
 C16Swap(pre, e, post) ==
   LET sw    == e.swaps[1]
@@ -1363,10 +1369,10 @@ IxOK(pre, e, post) ==
   /\ IF e.name \in {"set_reward_emissions", "set_reward_emissions_v2"}
      THEN Chk("C11", "set_emissions", C11SetEmissions(pre, e, post)) ELSE TRUE
   /\ IF e.name \in {"collect_reward", "collect_reward_v2"}
-     THEN Chk("C11", "collect_reward", NoTransferFee(pre, pre.pos[APos(e)].pool) => C11Collect(pre, e, post)) ELSE TRUE
+     THEN Chk("C11", "collect_reward", C11Collect(pre, e, post)) ELSE TRUE
   /\ IF e.name \in {"collect_fees", "collect_fees_v2"} THEN Chk("C01", "collect_fees_exact", CollectFees(pre, e, post)) ELSE TRUE
   /\ IF e.name \in {"collect_protocol_fees", "collect_protocol_fees_v2"}
-     THEN Chk("C06", "collect_protocol", NoTransferFee(pre, APool(e)) => C06CollectProtocol(pre, e, post))
+     THEN Chk("C06", "collect_protocol", C06CollectProtocol(pre, e, post))
      ELSE TRUE
   /\ IF IsSwapName(e.name) /\ APool(e) \in DOMAIN pre.oracle THEN Chk("C14", "adaptive_swap", C14Swap(pre, e, post)) ELSE TRUE
   /\ Chk("C14", "accumulator_within_maximum", \A p \in DOMAIN post.oracle : post.oracle[p].volAcc \preceq post.oracle[p].maxAcc /\ post.oracle[p].volRef \preceq post.oracle[p].maxAcc)
